@@ -2530,7 +2530,7 @@ Qed.
 
 Lemma elems_spec_of : forall k, expr_spec fc gl k ->
   forall args env st ocs r st1, eval_args genv k env args st = ((ocs, r), st1) ->
-  forall sc, args_F FS TL (g_all G) (fc_self fc) lv sc args = true -> forallb int_shaped args = true ->
+  forall sc, args_F FS TL (g_all G) (fc_self fc) lv sc args = true -> forallb (elem_ok (g_all G) sc) args = true -> cp = true ->
   forall prog pc L ce s m,
     code_at prog pc (compile_args ce L args) -> v_ip s = pc ->
     MS m st (v_heap s) -> v_out s = out st -> env_match_g fc (r_gp (v_fr s)) gl m env ce sc L (v_stk s) ->
@@ -2547,7 +2547,7 @@ Lemma elems_spec_of : forall k, expr_spec fc gl k ->
       end
     end.
 Proof.
-  intros k IH. induction args as [|a t IHt]; intros env st ocs r st1 He sc HF Hsh prog pc L ce s m Hc Hip HMS Hout Hem.
+  intros k IH. induction args as [|a t IHt]; intros env st ocs r st1 He sc HF Hsh Hcp prog pc L ce s m Hc Hip HMS Hout Hem.
   - unfold eval_args in He. rewrite eval_args_f_nil in He. inv He. simpl.
     exists s, m, []. simpl. rewrite Nat.add_0_r.
     split; [apply star_refl|]. split; [auto|]. split; [reflexivity|]. split; [reflexivity|].
@@ -2558,7 +2558,7 @@ Proof.
     rewrite compile_args_cons in *.
     set (ct := compile_args ce L t) in *. set (ca := compile_expr fc (L + Z.of_nat (length t)) ce a) in *.
     destruct (eval_args genv k env t st) as [[ocs1 r1] st2] eqn:Et.
-    pose proof (IHt env st ocs1 r1 st2 Et sc Ft St prog pc L ce s m (code_at_app_l _ _ _ _ Hc) Hip HMS Hout Hem) as Ht.
+    pose proof (IHt env st ocs1 r1 st2 Et sc Ft St Hcp prog pc L ce s m (code_at_app_l _ _ _ _ Hc) Hip HMS Hout Hem) as Ht.
     fold ct in Ht.
     destruct ocs1 as [cs|].
     + destruct Ht as (s1 & m1 & astk & Hst1 & Hip1 & Hstk1 & Hlen1 & HF1 & Hmi1 & HMS1 & Hext1 & Hout1 & Hfr1).
@@ -2569,9 +2569,22 @@ Proof.
                     (code_at_app_r _ _ _ _ Hc) Hip1 HMS1 Hout1 Hem1) as Ha. fold ca in Ha.
       destruct ra as [c|ex| |]; inv He; simpl in Ha |- *; auto.
       * destruct Ha as (s2 & m2 & a2 & Hst2 & Hip2 & Hstk2 & Hm2 & HMS2 & Hext2 & Hout2 & Hfr2).
-        destruct (vrel_kind _ _ _ _ _ HMS2 Hm2) as (v & Hcv & _).
-        assert (Hiv : is_intv v = true) by (eapply int_shaped_cell; [exact Sa | exact Ea | exact Hcv]).
-        destruct (MS_addint m2 st1 (v_heap s2) c v HMS2 Hcv ltac:(destruct v; try discriminate Hiv; exact I)) as (A & B & C).
+        assert (Hadd : exists m3, MS m3 st1 (v_heap s2) /\ ext m2 m3 /\ In c (mi m3)).
+        { unfold elem_ok in Sa. destruct (int_shaped a) eqn:Eis.
+          - (* a new int cell: it is recorded *)
+            destruct (vrel_kind _ _ _ _ _ HMS2 Hm2) as (v & Hcv & _).
+            assert (Hiv : is_intv v = true) by (eapply int_shaped_cell; [exact Eis | exact Ea | exact Hcv]).
+            destruct (MS_addint m2 st1 (v_heap s2) c v HMS2 Hcv ltac:(destruct v; try discriminate Hiv; exact I)) as (A & B & C).
+            eexists. split; [exact A|]. split; [exact B | exact C].
+          - (* an int var in scope: its cell, shared, is a recorded int cell already *)
+            cbn [orb] in Sa. destruct a; try discriminate Sa. apply andb_true_iff in Sa. destruct Sa as [Sx Si].
+            exists m2. split; [exact HMS2|]. split; [apply ext_refl|]. eapply ext_mi; [exact Hext2|].
+            assert (Hxi : mem_id x IV = true) by (unfold IV, CompileCorrect4Rel.ivs; rewrite Hcp; exact Si).
+            destruct (proj1 Hem1 x Sx) as (c' & a' & Hl & _).
+            destruct k as [|k']; [rewrite eval_O in Ea; discriminate Ea|].
+            rewrite eval_EVar in Ea. unfold lookup_var in Ea. rewrite Hl in Ea. inversion Ea; subst.
+            exact (proj2 (proj2 (proj2 (proj2 (proj2 (proj2 (proj2 Hem1)))))) x c Sx Hxi Hl). }
+        destruct Hadd as (m3 & A & B & C).
         eexists s2, _, (a2 :: astk). split; [eapply star_trans; eauto|].
         split; [rewrite Hip2, app_length; lia|]. split; [rewrite Hstk2, Hstk1; reflexivity|].
         split; [simpl; lia|].
@@ -2617,7 +2630,7 @@ Proof.
     with (compile_args ce L es ++ [ins BYTECODE_INT (Z.of_nat (length es)) 0; ins BYTECODE_MK_INIT_ARRAY 1 0]) in *.
   set (ca := compile_args ce L es) in *.
   destruct (eval_args genv k env es st) as [[ocs ra] st1] eqn:Eargs.
-  pose proof (elems_spec_of k IH es env st ocs ra st1 Eargs sc Fargs Fsh prog ip L ce (mk ip stk h o fr) m
+  pose proof (elems_spec_of k IH es env st ocs ra st1 Eargs sc Fargs Fsh Hcp prog ip L ce (mk ip stk h o fr) m
                 (code_at_app_l _ _ _ _ Hc) eq_refl HMS Hout Hem) as Ha.
   fold ca in Ha.
   destruct ocs as [cs|].
@@ -2684,7 +2697,7 @@ Proof.
     with (compile_args ce L es ++ [ins BYTECODE_RECORD (Z.of_nat (length es)) 0]) in *.
   set (ca := compile_args ce L es) in *.
   destruct (eval_args genv k env es st) as [[ocs ra] st1] eqn:Eargs.
-  pose proof (elems_spec_of k IH es env st ocs ra st1 Eargs sc Fargs Fsh prog ip L ce (mk ip stk h o fr) m
+  pose proof (elems_spec_of k IH es env st ocs ra st1 Eargs sc Fargs Fsh Hcp prog ip L ce (mk ip stk h o fr) m
                 (code_at_app_l _ _ _ _ Hc) eq_refl HMS Hout Hem) as Ha.
   fold ca in Ha.
   destruct ocs as [cs|].
